@@ -4,6 +4,7 @@
 package c13
 
 import (
+	"crypto/tls"
 	"encoding/json"
 	"fmt"
 	"strconv"
@@ -19,11 +20,12 @@ import (
 )
 
 type HPlan struct {
-	Pre      int  `json:"pre,omitempty"`      // step-waits before replying
-	WaitShut bool `json:"waitshut,omitempty"` // park until a shutdown has been called
-	SleepMs  int  `json:"sleep,omitempty"`
-	Reply    bool `json:"reply,omitempty"`
-	Post     int  `json:"post,omitempty"`
+	Pre      int    `json:"pre,omitempty"`      // step-waits before replying
+	WaitShut bool   `json:"waitshut,omitempty"` // park until a shutdown has been called
+	SleepMs  int    `json:"sleep,omitempty"`
+	Reply    bool   `json:"reply,omitempty"`
+	Post     int    `json:"post,omitempty"`
+	End      string `json:"end,omitempty"` // "" | close (handler closes the connection) | hijack (handler takes the connection over, then closes it)
 }
 
 type COp struct {
@@ -65,6 +67,9 @@ func Gen(seed uint64, tier string) any {
 	r := core.Rng(seed)
 	sc := &Scenario{RunSeed: seed}
 	sc.Transport = core.Pick(r, "udp", "tcp")
+	if tier == "thorough" || core.Chance(r, 15) {
+		sc.Transport = core.Pick(r, "udp", "tcp", "tls")
+	}
 	sc.Strategy = r.IntN(kernel.NumStrats)
 	sc.PCTDepth = 1 + r.IntN(3)
 	sc.Decorate = core.Chance(r, 50)
@@ -91,6 +96,9 @@ func Gen(seed uint64, tier string) any {
 				op.H = HPlan{Pre: r.IntN(4), WaitShut: core.Chance(r, 45), Reply: core.Chance(r, 85), Post: r.IntN(3)}
 				if core.Chance(r, 20) {
 					op.H.SleepMs = core.Pick(r, 1, 50, 3000)
+				}
+				if core.Chance(r, 12) {
+					op.H.End = core.Pick(r, "close", "hijack")
 				}
 			case x < 80:
 				op.Kind, op.N = "partial", r.IntN(20)
@@ -153,6 +161,11 @@ func Shrink(x any) []any {
 			if op.H.Pre > 0 || op.H.Post > 0 || op.H.SleepMs > 0 {
 				n := cp()
 				n.Clients[i].Ops[j].H.Pre, n.Clients[i].Ops[j].H.Post, n.Clients[i].Ops[j].H.SleepMs = 0, 0, 0
+				out = append(out, n)
+			}
+			if op.H.End != "" {
+				n := cp()
+				n.Clients[i].Ops[j].H.End = ""
 				out = append(out, n)
 			}
 		}
@@ -319,6 +332,16 @@ func (x *run) ServeDNS(w dns.ResponseWriter, r *dns.Msg) {
 	}
 	if p.Post > 0 {
 		k.WaitSteps("h.post", p.Post, time.Millisecond)
+	}
+	switch p.End {
+	case "close":
+		w.Close()
+		k.Bump("probe.handler_closed_connection")
+	case "hijack":
+		w.Hijack()
+		k.Yield("h.hijacked", 0)
+		w.Close() // the connection is now the handler's to close
+		k.Bump("probe.handler_hijacked_connection")
 	}
 	k.Lock()
 	st.exited++
@@ -508,7 +531,14 @@ func (c *clientTask) RunEvent(time.Time) {
 	}
 	var sconn *simnet.StreamConn
 	var co *dns.Conn
-	if sc.Transport == "tcp" {
+	if sc.Transport == "tls" {
+		sconn = x.n.Dial(x.l, false)
+		_, ccfg := common.TLSConfigs()
+		tc := tls.Client(sconn, ccfg)
+		conn = tc
+		co = &dns.Conn{Conn: tc}
+		sconn.SetDeadline(time.Now().Add(3 * time.Hour))
+	} else if sc.Transport == "tcp" {
 		sconn = x.n.Dial(x.l, false)
 		conn = sconn
 		co = &dns.Conn{Conn: sconn}
@@ -565,7 +595,7 @@ func (c *clientTask) RunEvent(time.Time) {
 			m.SetQuestion("partial.x.", dns.TypeTXT)
 			b, _ := m.Pack()
 			var frame []byte
-			if sc.Transport == "tcp" {
+			if sc.Transport != "udp" {
 				frame = append([]byte{byte(len(b) >> 8), byte(len(b))}, b...)
 			} else {
 				frame = b
@@ -599,7 +629,16 @@ func (c *clientTask) RunEvent(time.Time) {
 			closed = true
 		}
 	}
-	if !closed && sconn != nil {
+	if !closed && sconn != nil && sc.Transport == "tls" {
+		// read through the TLS layer until the server ends the session
+		buf := make([]byte, 64)
+		for {
+			if _, err := conn.Read(buf); err != nil {
+				break
+			}
+		}
+		conn.Close()
+	} else if !closed && sconn != nil {
 		// stay connected until the server ends the connection (or a long
 		// time passes): this is the idle / half-sent connection Shutdown has
 		// to unblock
@@ -677,7 +716,11 @@ func runIn(sc *Scenario, res *core.Result, verbose bool) {
 		srv.DecorateReader = (&common.Decorator{K: k}).Decorate
 		srv.MsgAcceptFunc = (&common.YieldAccept{K: k}).Accept
 	}
-	if sc.Transport == "tcp" {
+	if sc.Transport == "tls" {
+		x.l = n.Listen()
+		scfg, _ := common.TLSConfigs()
+		srv.Listener = tls.NewListener(x.l, scfg)
+	} else if sc.Transport == "tcp" {
 		x.l = n.Listen()
 		srv.Listener = x.l
 	} else {
@@ -952,6 +995,7 @@ func (x *run) judge(outcome string) {
 	// class / non-triviality
 	inflight := res.Stats["probe.handler_in_flight_at_shutdown_call"] > 0
 	late := res.Stats["probe.reply_written_after_shutdown_call"] > 0
+	res.Bump("cover.transport_" + sc.Transport)
 	res.Nontrivial = x.entered > 0 || len(shuts) > 1 || len(starts) > 1
 	res.Class = fmt.Sprintf("%s/%s/inflight=%v/late=%v/ctxexp=%v/start2=%v/shuts=%d/handlers=%d", sc.Transport, core.Mode, inflight, late, ctxExpired, len(starts) > 1, len(shuts), min(x.entered, 3))
 }
